@@ -84,6 +84,31 @@ def records(rng, delimiter=":", nmin=0, nmax=6, allow_delim=False, patterns=None
     return out
 
 
+def large_records(rng, n, delimiter=":", synonyms=True):
+    """n clash-free records whose URI prefixes form a deep random tree (for cases at a scale above any plausible
+    fast-path threshold, batch size or slice limit); CURIE prefixes p0..pn with case-variant and dotted synonyms."""
+    nodes = ["http://x/", "https://y.org/ns#", "urn:z:", "http://x/obo/"]
+    want = n * 2 + 4
+    while len(nodes) < want:
+        base = rng.choice(nodes)
+        nodes.append(base + "".join(rng.choice("abcAB01_/#-") for _ in range(rng.randint(1, 3))))
+        if len(nodes) % 64 == 0:
+            nodes = list(dict.fromkeys(nodes))
+    nodes = list(dict.fromkeys(nodes))
+    rng.shuffle(nodes)
+    recs = []
+    for i in range(n):
+        if not nodes:
+            break
+        u = nodes.pop()
+        usyn = tuple(nodes.pop() for _ in range(rng.choice([0, 0, 1, 2])) if synonyms and len(nodes) > n - i)
+        psyn = ()
+        if synonyms and i % 3 == 0:
+            psyn = (f"P{i}",) if i % 2 else (f"p.{i}", f"P{i}")
+        recs.append(spec.Rec(f"p{i}", u, psyn, usyn, None))
+    return recs
+
+
 def mk_record(api, r: spec.Rec):
     return api.Record(**json.loads(json.dumps(spec.rec_dict(r))))
 
